@@ -13,7 +13,7 @@ RULE = ("one group of k identical files (k=2..4 quick, 2..5 thorough) at differe
         "partition of the paths into hard-link sets, distinct (permuted) or tied timestamps; x every single priority "
         "(12) and ordered pairs of priorities x pattern sets {none, --name, --path, --keep-name, --keep-path, "
         "--name + --keep-name} x n in {unset,1,2,3} given as -n or --rf-over; inheritance cases where the settings come "
-        "only from the report header ({--isolate, -H, --isolate -H, --rf-over 2, --transform}; -H from the header with --isolate on the command line); isolate roots holding several files with different times: every assignment of time ranks to 4 (thorough: 5) files x every attribute priority, --isolate inherited or given to the dedupe command; observed = files named by the "
+        "only from the report header ({--isolate, -H, --isolate -H, --rf-over 2, --transform}; -H from the header with --isolate on the command line; --isolate on the command line with relative root spellings); isolate roots holding several files with different times: every assignment of time ranks to 4 (thorough: 5) files x every attribute priority, --isolate inherited or given to the dedupe command; observed = files named by the "
         "--dry-run script (and, for a sample, the effect of a real run); oracle = reference selection written from the "
         "statement. Non-trivial = reference drops at least one file; distinct by (structure, times, options).")
 ASSUMPTIONS = ["a sub-group of several files (isolate root) is ranked by the aggregate that the accessors of FileSubGroup "
@@ -86,7 +86,7 @@ def cases(tier, seed):
                 pl = prio_lists[idx % len(prio_lists)]
                 out.append({"k": k, "rgs": rgs, "prio": pl, "pat": pat[0], "pat_args": pat[1], "n": n, "tied": False,
                             "inherit": None, "real": idx % 6 == 0, "op": OPS4[(idx // 6 + idx) % 4]})
-        for inh in ("isolate", "match_links", "rf2", "transform", "isolate_dot", "isolate_H", "isolate_cli_H"):
+        for inh in ("isolate", "match_links", "rf2", "transform", "isolate_dot", "isolate_H", "isolate_cli_H", "isolate_cli_rel"):
             for pl in ([], ["top"], ["most-nested"], ["bottom", "least-nested"]):
                 idx += 1
                 out.append({"k": k, "rgs": rgs, "prio": pl, "pat": "none", "pat_args": [], "n": None, "tied": False,
@@ -279,6 +279,9 @@ def evaluate(case):
             gargs.append("-H")
             opts["isolate_roots"] = [sc.path("r1").decode(), sc.path("r1x").decode()]
             opts["match_links"] = True
+        elif inh == "isolate_cli_rel":
+            # as isolate_cli, but the roots are spelled relative to the working directory (r1, ./r1x/)
+            opts["isolate_roots"] = [sc.path("r1").decode(), sc.path("r1x").decode()]
         elif inh == "isolate_cli":
             # the report is made without --isolate; the dedupe command gets it with the roots
             opts["isolate_roots"] = [sc.path("r1").decode(), sc.path("r1x").decode()]
@@ -307,6 +310,8 @@ def evaluate(case):
         if inh in ("isolate_cli", "isolate_cli_H"):
             for r in opts["isolate_roots"]:
                 dargs += ["--isolate", r]
+        if inh == "isolate_cli_rel":
+            dargs += ["--isolate", "r1", "--isolate", "./r1x/"]
         for pr in case["prio"]:
             dargs += ["--priority", pr]
         if case["n"]:
